@@ -224,6 +224,8 @@ class Product:
                     out.append(("frag", ("BADEND", F(n), end, repr(vol))))
             elif tag == "frag_leak":
                 out.append(("frag", ("LEAK", F(e[1]))))
+            elif tag == "reopen" and e[1] == "codemap":
+                out.append(("frag", ("REOPEN", F(e[3]))))
         return out
 
     # ---- comparing events ------------------------------------------------------------------------------------------
@@ -266,10 +268,13 @@ class Product:
         if isinstance(x, tuple):
             r = []
             for y in x:
-                t = self.tr_obj(omap, y)
-                if t is None and isinstance(y, Obj):
-                    return None
-                r.append(t if isinstance(y, (Obj, tuple)) else y)
+                if isinstance(y, (Obj, tuple)):
+                    t = self.tr_obj(omap, y)
+                    if t is None:
+                        return None
+                    r.append(t)
+                else:
+                    r.append(y)
             return tuple(r)
         return x
 
@@ -317,6 +322,13 @@ class Product:
                 pq, rq = q[c]
                 if c == "frag":
                     # fragment events are self-contained records (index, offsets, count): compare as a multiset
+                    for pe in pq:
+                        if pe[0] not in ("BEGIN", "END"):
+                            why = {"LEAK": "a reserved code-map entry is never completed (no end_fragment on this path)",
+                                   "REOPEN": "a code-map entry that was already completed is modified again",
+                                   "BADBEGIN": "a code-map entry is not reserved as (position, position, volume 0)",
+                                   "BADEND": "the stored volume is not `entries_now - index`"}.get(pe[0], pe[0])
+                            return None, None, (c, "%s: %s" % (why, show_ev(pe)))
                     for pe in list(pq):
                         if pe in rq:
                             pq.remove(pe)
@@ -505,13 +517,13 @@ class Product:
         while work:
             js = work.popleft()
             if len(seen) > self.max_states:
-                self.report("C01.lang", "state-limit", "joint state limit %d exceeded (model does not converge): undecided" % self.max_states)
+                self.report("E2.undecided", "state-limit", "joint state limit %d exceeded (model does not converge): undecided" % self.max_states)
                 break
             for what in (("eof",) if js.ateof is not None else ("eof", "err", "char")):
                 try:
                     self.step(js, what, seen, work)
                 except Undecided as e:
-                    self.report("C01.lang", "undecided/%s" % str(e)[:80], "undecided: %s at %s" % (e, e.site), js)
+                    self.report("E2.undecided", "undecided/%s" % short(str(e)), "undecided (failing closed): %s at %s" % (e, e.site), js)
         self.states = len(seen)
         return self
 
@@ -624,9 +636,10 @@ class Product:
                 if rout.final[0] == "accept":
                     self.report("C01.lang", "reads-past-end", "the parser keeps reading where the reference accepts", js, o, witness=wit())
                 else:
-                    self.report("C07.unexp" if rout.final[1][0] == "Unexpected" else "C01.lang", "accepts-prefix/%s" % (rout.final[1][0],),
-                                "the parser continues where the reference rejects with %s: it accepts an invalid prefix / reports the error later" % (rout.final[1][0],),
-                                js, o, witness=wit())
+                    for rule in ("C01.lang", "C07.unexp" if rout.final[1][0] == "Unexpected" else ("C07.utf8" if rout.final[1][0] == "Stream" else "C07.surr")):
+                        self.report(rule, "accepts-prefix/%s" % (rout.final[1][0],),
+                                    "the parser continues where the reference rejects with %s: it accepts an invalid prefix / reports the error later" % (rout.final[1][0],),
+                                    js, o, witness=wit())
                 return
             if rout.final[0] == "accept":
                 if pf[0] != "accept":
@@ -682,7 +695,8 @@ class Product:
             if pf[0] == "accept":
                 self.report("C01.lang", "accepts-early", "the parser returns Ok where the reference still expects input", js, o, witness=wit())
             else:
-                self.report("C01.lang", "rejects-valid/%s" % (pf[1],), "the parser rejects (%s) an input the reference can still extend to a valid text (or it reports the error before the first offending character)" % (pf[1],), js, o, witness=wit())
+                for rule in ("C01.lang", "C07.unexp"):
+                    self.report(rule, "rejects-valid/%s" % (pf[1],), "the parser rejects (%s) an input the reference can still extend to a valid text (or it reports the error before the first offending character)" % (pf[1],), js, o, witness=wit())
             return
         depth = len(rout.state.stack)
         self.presweep(o, rout.state, js.q)
